@@ -204,4 +204,27 @@ def illegalOk (pen tol : Rat) (s s' : State) (ts : TimeStep Obs) : Bool :=
    | [r] => decide (r - pen ≤ tol) && decide (pen - r ≤ tol)
    | _ => false)
 
+/-! ### the generator, draws as parameters (C10) -/
+
+/-- `UniformGenerator.__call__`; `u` = what `jax.random.uniform(sample_key, (num_cities, 2), minval=0, maxval=1)`
+returned.  (`reset` returns this state unchanged.) -/
+def generate (n : Nat) (u : List (List Rat)) : State :=
+  { coords := u, position := -1, visited := List.replicate n false,
+    trajectory := List.replicate n (-1), numVisited := 0 }
+
+/-- the support of the uniform draw: `n` rows of 2 numbers of the half-open interval `[0, 1)` -/
+def validUniform (n : Nat) (u : List (List Rat)) : Prop :=
+  u.length = n ∧ ∀ p ∈ u, p.length = 2 ∧ ∀ x ∈ p, 0 ≤ x ∧ x < 1
+
+instance (n : Nat) (u : List (List Rat)) : Decidable (validUniform n u) := by unfold validUniform; infer_instance
+
+/-- generator certificate, evaluated on the implementation's reset states: `n` rows of 2 coordinates in `[0, 1)`,
+nothing visited, position −1, trajectory all −1, counter 0 -/
+def GenCert (n : Nat) (s : State) : Prop :=
+  s.coords.length = n ∧ (∀ p ∈ s.coords, p.length = 2 ∧ ∀ x ∈ p, 0 ≤ x ∧ x < 1) ∧
+  s.visited = List.replicate n false ∧ s.position = -1 ∧ s.trajectory = List.replicate n (-1) ∧
+  s.numVisited = 0
+
+instance (n : Nat) (s : State) : Decidable (GenCert n s) := by unfold GenCert; infer_instance
+
 end TSP
